@@ -592,6 +592,9 @@ def check_C10(chk):
     r = mc("C10", "mc_ops", "MC_Ops.tla", dict(base, MaxCalls=3 if q else 4), ["BuildersAsDeclared", "OpGroupFirst", "GenCalls"],
            case_file=cases, coverage_actions=["Next"], timeout=3000)
     chk.add_mc(r, "MC_Ops MaxCalls=%d" % (3 if q else 4))
+    # L9 composition at design level: builder -> encoder (every map order) -> RFC reading and parser state machine
+    r = mc("C10", "mc_endtoend", "MC_Ops.tla", dict(base, MaxCalls=1 if q else 2, MaxExtra=1), ["EndToEnd"], timeout=3000)
+    chk.add_mc(r, "MC_Ops EndToEnd (builder -> encoder under all map orders -> reading / parser)")
     out = os.path.join(wd, "run")
     harness("vh", ["ops", "--prop", "C10", "--out", out, "--seed", chk.seed, "--cases", cases])
     run_sample(chk, out)
